@@ -46,7 +46,9 @@ def _scenarios(quick, seed, workdir):
     for k in range(8 if quick else 150):
         files = _mk_files(k, workdir, rnd)
         tgt = dumps.base_target(1, file_maps=[{"path": f["path"], "off": f["off"], "len": 0x3000 if not f["archive"] else 0x3000, "exec": f["exec"], "delete": f["delete"],
-                                                     "split": (k + j) % 2 == 0, **{x: f[x] for x in ("recreate_from", "gap_before") if x in f}} for j, f in enumerate(files)])
+                                                     "split": (k + j) % 2 == 0, **{x: f[x] for x in ("recreate_from", "gap_before") if x in f},
+                                                     # every fourth target: the linker's inaccessible reservation behind the first library's text (folded into the module)
+                                                     **({"guard_after": 2} if (j == 0 and k % 4 == 3 and f["exec"] and not f["archive"]) else {})} for j, f in enumerate(files)])
         w = {"blamed": "main"}
         mode = k % 4
         if mode == 1:      # a caller mapping that describes the first mapped file: exactly its merged extent, or (every other time) its first three pages
@@ -161,5 +163,5 @@ def c08(ck):
     ck.cov["decided_by"] = {"which mappings are listed, order, extents, which name variant, id equality": "spec", "build id / SONAME of each image": "harness's independent ELF reader on the file or the mapped bytes",
                             "candidate name strings (dirname/SONAME joins)": "harness projection"}
     ck.sample({"modules_event": {k: (v if k not in ("cands",) else v[:3]) for k, v in next(e for e in evs if e["ev"] == "modules").items()}})
-    ck.assumptions += ["mapping groups = contiguous same-name lines of /proc/<pid>/maps (the aggregator's reserved-gap merges do not occur for these targets)", "size_of_image is 32 bit in the format (mappings < 4 GiB)"]
+    ck.assumptions += ["mapping groups are formed by the harness with MapsAggregate's rules (the model C13 validates), from /proc/<pid>/maps", "size_of_image is 32 bit in the format (mappings < 4 GiB)"]
     return runs
